@@ -275,6 +275,23 @@ fn reload(rep: &Arc<Reporter>, args: &Args) {
             if r.is_ok() { rep.violation("reload with an unloadable certificate reported success", json!({})); }
             else if before != after { rep.violation("failed reload changed the configuration in force", json!({})); }
             else { failed_reload_kept += 1; }
+            // the same from a hosts *file* (what the endpoint reloads on SIGHUP: not built by the builder, so the reload has
+            // to validate it): certificates load, but the settings are structurally invalid
+            let (ca, ka, _) = &certs_a.infos["a"];
+            let entry = |class: &str, name: &str| format!("[[{}]]\nhostname = \"{}\"\ncert_chain_path = \"{}\"\nprivate_key_path = \"{}\"\n", class, name, ca, ka);
+            for (what, text) in [
+                ("a host name shared by two host classes", format!("{}{}{}", entry("main_hosts", "zz.reload.test"), entry("ping_hosts", "dup.reload.test"), entry("speedtest_hosts", "dup.reload.test"))),
+                ("no main host", entry("ping_hosts", "only-ping.reload.test")),
+                ("the same main host twice", format!("{}{}", entry("main_hosts", "zz.reload.test"), entry("main_hosts", "zz.reload.test"))),
+            ] {
+                let Ok(file_hosts) = toml::from_str::<TlsHostsSettings>(&text) else { rep.tally("reload: invalid hosts file rejected by the parser already", 1); continue };
+                let before: Vec<_> = snis.iter().map(|s| tls_select(&ctx, &alpn, s).ok().map(|m| (m.channel, m.cert_chain_der))).collect();
+                let r = ctx.core.reload_tls_hosts_settings(file_hosts);
+                let after: Vec<_> = snis.iter().map(|s| tls_select(&ctx, &alpn, s).ok().map(|m| (m.channel, m.cert_chain_der))).collect();
+                if r.is_ok() { rep.violation(&format!("reload of invalid host settings reported success: {}", what), json!({"hosts_file": text})); let (_, hosts) = build(cfg, certs).unwrap(); let _ = ctx.core.reload_tls_hosts_settings(hosts); }
+                else if before != after { rep.violation("failed reload changed the configuration in force", json!({"invalid_because": what, "hosts_file": text})); let (_, hosts) = build(cfg, certs).unwrap(); let _ = ctx.core.reload_tls_hosts_settings(hosts); }
+                else { failed_reload_kept += 1; }
+            }
         }
         std::thread::sleep(std::time::Duration::from_micros(200));
     }
